@@ -474,8 +474,12 @@ int main(void)
 			if (vin_title == 'A' + i)
 				exists = 1;
 		s = cfg_addtsec(&root, "o", t);
-		if (KIND != KI_SECT) {
-			/* untitled kinds: unspecified by the statement, only safety */
+		if (KIND != KI_SECT && KIND != KI_SECM && KIND != KI_SEC) {
+			A09(s == NULL, "[C09] a titled-section add on an option that is not a section fails (wrong type)");
+			assert_untouched();
+			V_WITNESS("refused");
+		} else if (KIND != KI_SECT) {
+			/* untitled section kinds: unspecified by the statement, only safety */
 		} else if (exists) {
 			A09(s == NULL, "[C09] adding a section whose title exists fails (titles stay unique)");
 			assert_untouched();
